@@ -278,7 +278,7 @@ class DomainManagerBase(RM):
     def delete_link(self, name1, name2, *domain):
         links = self._get_links(*domain)
         if Link(name1, name2) not in links:
-            raise RuntimeError(f"error: link between {name1} and {name2} does not exist")
+            return
         links.remove(Link(name1, name2))
 
     def has_link(self, name1, name2, *domain):
